@@ -36,7 +36,10 @@ type Config struct {
 	Buffer  int       `json:"buffer"`
 	Jumps   bool      `json:"jumps"` // 250 ms clock jumps at clock readings (time flush)
 	OneFile bool      `json:"one_file"`
-	Bound   int       `json:"bound"`
+	// SameBase: the two files have the same base name in two directories
+	// (logs/a/current, logs/b/current) instead of two names in one directory
+	SameBase bool `json:"same_base_name,omitempty"`
+	Bound    int  `json:"bound"`
 }
 
 // writer operations
@@ -67,11 +70,16 @@ type obs struct {
 	done     bool
 }
 
-func paths() [2]string { return [2]string{vos.Root + "f0", vos.Root + "f1"} }
+func paths(c *Config) [2]string {
+	if c.SameBase {
+		return [2]string{vos.Root + "a/current", vos.Root + "b/current"}
+	}
+	return [2]string{vos.Root + "f0", vos.Root + "f1"}
+}
 
 func body(c *Config, o *obs) {
 	fs := vos.Reset()
-	ps := paths()
+	ps := paths(c)
 	nfiles := 2
 	if c.OneFile {
 		nfiles = 1
@@ -231,7 +239,7 @@ func check(c *Config, o *obs, res *vrt.Result) []finding {
 	if o.readErrs != 0 {
 		add("C15", "C15/tailchan/"+mode+"/read-errors", fmt.Sprintf("%d read errors counted although nothing failed", o.readErrs))
 	}
-	ps := paths()
+	ps := paths(c)
 	for i := 0; i < 2; i++ {
 		if c.OneFile && i == 1 {
 			continue
@@ -368,6 +376,14 @@ func configs(prop, tier string) []*Config {
 			}
 		}
 	}
+	// the same base name in two directories (events of one directory must not
+	// be taken for the other file's): notify mode, every history up to 2
+	// operations and the curated ones
+	for _, h := range append(histories(2, alpha), curated...) {
+		for _, init := range inits {
+			out = append(out, &Config{Poll: false, Initial: init, History: h, Batch: 1, Buffer: 1, SameBase: true, Bound: curatedBound})
+		}
+	}
 	// one file only (the WaitGroup/close logic with a single reader)
 	for _, poll := range []bool{false, true} {
 		for _, h := range [][]string{{}, {"A"}, {"P", "Q"}, {"A", "R"}, {"P"}} {
@@ -454,7 +470,7 @@ func main() {
 		Properties: []string{"C15", "C05"},
 		Level:      "model_checking",
 		Rule: func(prop, tier string) string {
-			r := "real batchers.TailFilesToChan following two files (and one file) on the virtual file system + virtual inotify queue under the controlled runtime, notify and polling readers, batch size 1-2, batch buffer 1-2, the 250 ms time flush with clock jumps as choices; writer histories over {append 'a LF' / 'p' / 'q LF' to file 0, append 'xy LF' / 'LF' to file 1, remove file 0 / file 1 once all its bytes were read}, completed by the missing removals, initial contents {empty, 'i LF' / 'j'}; "
+			r := "real batchers.TailFilesToChan following two files (in one directory, and with the same base name in two directories; and one file) on the virtual file system + virtual inotify queue under the controlled runtime, notify and polling readers, batch size 1-2, batch buffer 1-2, the 250 ms time flush with clock jumps as choices; writer histories over {append 'a LF' / 'p' / 'q LF' to file 0, append 'xy LF' / 'LF' to file 1, remove file 0 / file 1 once all its bytes were read}, completed by the missing removals, initial contents {empty, 'i LF' / 'j'}; "
 			if prop == "C05" {
 				return r + "every schedule with at most 1 deviation (quick: every history up to 2 operations; thorough: up to 3, and up to 2 with 2 deviations; plus 9 longer curated histories) with the vector-clock happens-before detector on the fields and package variables of batchers, followreader, extractor and logger; a data race, a send on a closed channel or a batcher that never closes after both files were removed is a violation. States = distinct (mode, history, batch arrival order); transitions = scheduling steps. Non-trivial = at least one batch and more than one goroutine switch."
 			}
